@@ -201,11 +201,12 @@ type RouteWorld struct {
 	confirmed        map[taskKey]bool
 	deliveries       map[taskKey][]delivery
 	delivOrder       int
-	toProxy          map[taskKey]bool // source task read by the proxy (any incarnation)
-	readAt           map[taskKey]int  // decision at which the proxy last read the task
-	readInc          map[taskKey]int  // source stream incarnation over which the proxy last read it
-	readCount        map[taskKey]int  // number of distinct source incarnations over which the proxy read it
-	ackedUnconfirmed map[taskKey]bool // tasks already reported as acknowledged without confirmation
+	toProxy          map[taskKey]bool       // source task read by the proxy (any incarnation)
+	readAt           map[taskKey]int        // decision at which the proxy last read the task
+	readInc          map[taskKey]int        // source stream incarnation over which the proxy last read it
+	readCount        map[taskKey]int        // number of distinct source incarnations over which the proxy read it
+	ackedUnconfirmed map[taskKey]bool       // tasks already reported as acknowledged without confirmation
+	intraSent        map[taskKey][]intraHop // multi-instance: intra-proxy streams a task was written to
 
 	faultsLeft int
 	faults     map[string]int
@@ -312,7 +313,7 @@ func (w *RouteWorld) shard(id ShardID) *shardModel {
 // routing mode (cluster_connection.go: getRoutingParameters).
 func NewRouteWorld(s *simrt.Sim, prof RouteProfile) *RouteWorld {
 	w := &RouteWorld{s: s, prof: prof, confirmed: map[taskKey]bool{}, deliveries: map[taskKey][]delivery{},
-		toProxy: map[taskKey]bool{}, readAt: map[taskKey]int{}, readInc: map[taskKey]int{}, readCount: map[taskKey]int{}, faults: map[string]int{}, ackedUnconfirmed: map[taskKey]bool{}}
+		toProxy: map[taskKey]bool{}, readAt: map[taskKey]int{}, readInc: map[taskKey]int{}, readCount: map[taskKey]int{}, faults: map[string]int{}, ackedUnconfirmed: map[taskKey]bool{}, intraSent: map[taskKey][]intraHop{}}
 	w.cfg = drawRouteConfig(s, prof)
 	s.SetPKeep(w.cfg.PKeep)
 	w.faultsLeft = w.cfg.FaultBudget
@@ -401,7 +402,24 @@ func NewRouteWorld(s *simrt.Sim, prof RouteProfile) *RouteWorld {
 				w.nextSt++
 				st := simio.NewStream(fmt.Sprintf("intra%d->%s", w.nextSt, peer.name), w.nextSt, ctx, 0)
 				omd, _ := metadata.FromOutgoingContext(ctx)
-				s.Log("intra stream %s opened: %s", st.Name, mdSummary(omd))
+				opener := ""
+				if v := omd.Get("x-s2s-origin-proxy-id"); len(v) > 0 {
+					opener = v[0]
+				}
+				s.Log("intra stream %s opened by %s: %s", st.Name, opener, mdSummary(omd))
+				// tasks travel from the stream's server side (the source shard's instance) to the
+				// instance that opened it (the one that owned the target shard when it did)
+				st.OnS2C = func(m *simio.Res) {
+					if msgs := m.GetMessages(); msgs != nil {
+						for _, t := range msgs.ReplicationTasks {
+							if t.RawTaskInfo != nil {
+								if k, ok := parseMarker(t.RawTaskInfo.RunId); ok {
+									w.intraSent[k] = append(w.intraSent[k], intraHop{to: opener, st: st})
+								}
+							}
+						}
+					}
+				}
 				s.Spawn("intra-handler:"+st.Name, func() {
 					err := peer.outbound.StreamWorkflowReplicationMessages(simio.ServerEnd{S: st})
 					st.ServerFinish(err)
@@ -695,7 +713,19 @@ func (w *RouteWorld) c04Sig(c *srcConn, t *srcTask, k taskKey) string {
 			return "in-flight-state-died-with-target-stream"
 		}
 	}
+	// multi-instance deployment: the hand-off across the intra-proxy hop is fire-and-forget. The
+	// task was written to an intra-proxy stream (which is when the source's instance counts it
+	// as handed off), that stream has since been torn down, and no target stream ever got it.
+	if hops := w.intraSent[k]; len(ds) == 0 && len(hops) > 0 && hops[len(hops)-1].st.Dead() {
+		return "in-flight-on-intra-proxy-hop-lost"
+	}
 	return ""
+}
+
+// intraHop is one write of a task to an intra-proxy stream.
+type intraHop struct {
+	to string // instance that opened the stream (the owner of the target shard at that time)
+	st *simio.Stream
 }
 
 func (w *RouteWorld) srcReadAck(c *srcConn) {
